@@ -199,9 +199,10 @@ def edit_ssc(rng, sf, steps):
                 if "NOTES" in c and nk == "NOTES2": del c["NOTES"]
                 if nk not in c: c[nk] = rand_notes(rng)
                 if rng.random() < .08: c[nk] = None      # note data loaded from a key-only #NOTES;
-                sf.charts.insert(rng.randrange(len(sf.charts) + 1), c); log.append(["addchart", nk])
+                i = rng.randrange(len(sf.charts) + 1)
+                sf.charts.insert(i, c); log.append(["insert", i, [[k_, v_] for k_, v_ in c.items()]])
             elif op == "delchart" and sf.charts:
-                sf.charts.pop(rng.randrange(len(sf.charts))); log.append(["delchart"])
+                i = rng.randrange(len(sf.charts)); sf.charts.pop(i); log.append(["pop", i])
             elif op == "serialize":
                 try:
                     str(sf)
@@ -212,31 +213,32 @@ def edit_ssc(rng, sf, steps):
             elif op == "reverse":
                 sf.charts.reverse(); log.append(["reverse"])
             elif op in ("editchart", "shared") and sf.charts:
-                c = rng.choice(sf.charts)
+                i = rng.randrange(len(sf.charts)); c = sf.charts[i]
                 k = rng.choice(SSC_CHART_KEYS)
                 v = shared if op == "shared" else (rand_multi(rng) if k in ("ATTACKS", "DISPLAYBPM") and rng.random() < .7 else rand_value(rng))
                 if rng.random() < .2 and k.lower() in ("chartname", "credit", "music", "bpms", "offset", "displaybpm", "attacks"):
-                    setattr(c, k.lower(), v if v is not None else "")
+                    setattr(c, k.lower(), v if v is not None else ""); log.append(["cattr", i, k.lower(), v if v is not None else ""])
                 else:
-                    c[k] = v
+                    c[k] = v; log.append(["cset", i, k, v])
                 if op == "shared" or rng.random() < .15:
                     # note data equal to / identical with another value, empty, or a one-character string
                     nk = "NOTES2" if ("NOTES" not in c and "NOTES2" in c) else "NOTES"
-                    c[nk] = rng.choice([v if v is not None else "", "", "0", shared])
-                log.append([op, k, v])
+                    nv = rng.choice([v if v is not None else "", "", "0", shared])
+                    if rng.random() < .3: c.notes = nv; log.append(["cattr", i, "notes", nv])
+                    else: c[nk] = nv; log.append(["cset", i, nk, nv])
             elif op == "chartdel" and sf.charts:
-                c = rng.choice(sf.charts)
+                i = rng.randrange(len(sf.charts)); c = sf.charts[i]
                 ks = [k for k in c.keys() if k not in ("NOTES", "NOTES2")]
                 if ks:
-                    k = rng.choice(ks); del c[k]; log.append(["chartdel", k])
+                    k = rng.choice(ks); del c[k]; log.append(["cdel", i, k])
             elif op == "notespos" and sf.charts:
                 # move the note data item to a random position (re-insert the other items after it)
-                c = rng.choice(sf.charts)
+                i = rng.randrange(len(sf.charts)); c = sf.charts[i]
                 items = list(c.items())
                 rng.shuffle(items)
                 c.clear()
                 for k, v in items: c[k] = v
-                log.append(["notespos"])
+                log.append(["set", i, [[k_, v_] for k_, v_ in c.items()]])      # as seen from outside: the chart replaced by a reordered one
         except Exception as e:
             log.append(["raised", op, type(e).__name__])
     return log
